@@ -58,6 +58,14 @@ QUESTIONS = [
     ("format", "mile / hour", "~P"), ("format", "vfu1", "~"), ("format", "ounce", ""),
     ("compact", "pound", 12345678), ("compact", "vfu0", 0.000012),
     ("to_base", "ounce", 3), ("to_base", "vfu2", 2), ("to_base", "stone", 5),
+    # units that depend on `pound` (redefined by the context 'vredef') at several removes, also through
+    # symbols and aliases (reyn = psi * second, psi = force_pound / inch ** 2, force_pound = g_0 * pound)
+    ("convert", "reyn", "pascal * second"), ("convert", "kip_per_square_inch", "pascal"),
+    ("convert", "horsepower", "watt"), ("convert", "slug", "kilogram"), ("convert", "foot_pound", "joule"),
+    ("convert", "US_ton", "kilogram"), ("convert", "UK_force_ton", "newton"), ("convert", "poundal", "newton"),
+    ("convert", "jute", "tex"), ("convert", "number_english", "number_meter"),
+    ("convert", "international_british_thermal_unit", "joule"), ("convert", "psi", "bar"),
+    ("root", "reyn"), ("base", "ksi"), ("to_base", "horsepower", 2),
 ]
 
 OPS = ["q"] * 0 + ["define", "ctx_rule_on", "ctx_redef_on", "ctx_off", "sys", "second", "q0", "q1", "q2", "q3",
@@ -193,6 +201,7 @@ def run_history(ops, world, rec, rng, tag):
     trace = []
     defined_inside_redef = set()   # names defined while a redefining context was active (finding D18)
     pool = rng.sample(QUESTIONS, 8)
+    pool[:3] = rng.sample(QUESTIONS[-15:], 3)   # always some dependants of the redefined unit
     for op in ops:
         state_before = (ndefs, tuple(stack), system)
         if op == "define":
